@@ -257,6 +257,7 @@ type FuncResult struct {
 	Script     *Script
 	Assumes    []string
 	Auto       *AutoReplay
+	Sites      []string // call sites by name with their source line (verify -sites)
 }
 
 func displayName(key string) string {
@@ -441,6 +442,10 @@ func (e *Engine) verifyFunc(key string, timeoutS, seed int, allSolvers bool, sol
 	res.Auto = fe.buildAutoReplay(fr)
 	fe.runFunction(fr, fr.entry, fe.paramVals(fr), nil)
 	res.GenMS = time.Since(t0).Milliseconds()
+	for site, ci := range fr.callIdx {
+		res.Sites = append(res.Sites, fmt.Sprintf("%5d  call[%s]", e.fset.Position(ci.Pos()).Line, site))
+	}
+	sort.Strings(res.Sites)
 	if con != nil {
 		// every site a contract is keyed to must exist in the current code: a clause keyed to a vanished
 		// site fails (closed) as that clause's obligation
